@@ -376,7 +376,10 @@ def resolve_selector(sel, events, r, l1, win):
 
 
 def fault_from_spec(spec):
-    """Replay-file fault -> inject.Fault (identity + occurrence addressing)."""
+    """Replay-file fault -> inject.Fault (identity + occurrence addressing); a list of
+    specs is a chain (each later fault is counted from the delivery of the previous one)."""
     if spec is None:
         return None
+    if isinstance(spec, list):
+        return [fault_from_spec(x) for x in spec]
     return inject.Fault(spec.get('k'), spec['exc'], tuple(spec['identity']), occ=spec['occ'])
